@@ -135,6 +135,7 @@ static a_real from_bits(bits_t b)
 }
 static void univariate(bool thorough)
 {
+    vx::mark("asinh/acosh/atanh/expm1/log1p sweep");
     n_eval = n_nt = 0;
 #if A_SIZE_REAL + 0 == 4
     // float: the complete set of bit patterns in thorough; in quick every pattern whose low 11 mantissa bits are zero (2^21 values)
@@ -345,6 +346,7 @@ static void multivariate()
 // ---------------------------------------------------------------- reductions and block movers (small integers: exact)
 static void blocks()
 {
+    vx::mark("reductions and block movers");
     uint64_t n = 0, nt = 0;
     if (R.shard.idx != 0) { R.part("reductions/movers (shard 0)", 0, 0); return; }
     const a_real G = (a_real)-12321;
